@@ -1,12 +1,12 @@
 (* C04 — honest issue-hold-present-verify flows always verify.
    Property theorems only; every proof is `exact <lemma>`. PARTIAL: see C04_statement. *)
 From Coq Require Import List String ZArith NArith Bool.
-From AV Require Import Model.VTypes Model.CL Model.VerifierLegacy Model.VCfg Model.Prover Model.PProps Proofs.C04Proofs Proofs.C04F10.
+From AV Require Import Model.VTypes Model.CL Model.VerifierLegacy Model.VCfg Model.Prover Model.PProps Proofs.C04Proofs Proofs.C04F10 Proofs.C04G6.
 Import ListNotations.
 
 (* the full statement, for both formats (composition of the prover and verifier models over every
-   honest case). NOT proved as a whole: the legacy format is proved end to end for the class of
-   C04_legacy_plain below; restrictions, non-revocation intervals and the W3C format are decided per
+   honest case). NOT proved as a whole: the legacy format is proved end to end for the classes of
+   C04_legacy_plain and C04_legacy_rev below; restrictions, verifier-side override maps and the W3C format are decided per
    case by the correspondence run on every check (their CL layer is C04_sub_proof_verifies_partial). *)
 Definition C04_statement : Prop := c04_statement.
 
@@ -26,6 +26,29 @@ Proof. exact c04_legacy_plain_b. Qed.
 Theorem C04_plain_nonvacuous :
   plain_b e_case = true /\ exists P, create_legacy pcfg_fixed (pc_req e_case) (pc_cx e_case) (pc_link e_case) (pc_sel e_case) (pc_self e_case) = ROk P.
 Proof. exact c04_plain_nonvacuous. Qed.
+
+(* END TO END, legacy format, for EVERY case of the wider class [rev_b]: as above, and the credentials may
+   be of revocable definitions, the request, its attributes and its predicates may carry non-revocation
+   intervals (well-formed u64 bounds), timestamps and non-revocation states are supplied as the
+   decidable honesty predicate rev_ok_legacy demands (a state valid for the status list the verifier
+   holds at a timestamp inside the interval that applies; none where none applies or the credential is
+   not revocable); still no restrictions and no verifier-side override map. The proof shows that the
+   prover and the verifier, which gather the referent intervals in different orders, select intervals
+   of the same presence and validity (fold_opt_same_set), that the verifier's interval check, its
+   non-revocation requirement and its registry lookup succeed, and that the ideal CL check accepts the
+   non-revocation part against the looked-up registry value. *)
+Theorem C04_legacy_rev : forall c P, rev_b c = true ->
+  create_legacy pcfg_fixed (pc_req c) (pc_cx c) (pc_link c) (pc_sel c) (pc_self c) = ROk P ->
+  verify_legacy cfg_fixed (pc_req c) P (pc_cx c) = Accept.
+Proof. exact c04_legacy_rev_b. Qed.
+(* inhabited by a case outside plain_b: a revocable credential shown at timestamp 20 against a request
+   interval [10,30], an attribute interval [15,25] and a predicate interval [5,22]; the built presentation
+   carries a non-revocation part *)
+Theorem C04_rev_nonvacuous :
+  rev_b g_case = true /\ plain_b g_case = false /\
+  exists P, create_legacy pcfg_fixed (pc_req g_case) (pc_cx g_case) (pc_link g_case) (pc_sel g_case) (pc_self g_case) = ROk P
+            /\ existsb (fun sp => is_some (sp_nrp sp)) (p_proofs P) = true.
+Proof. exact c04_rev_nonvacuous. Qed.
 
 (* CL layer, for EVERY credential provenance, fed values, schema attribute set, revealed names,
    predicates, revocation part, link secret and position: a sub-proof the ideal prover builds from
@@ -64,6 +87,8 @@ Proof. exact c04_fixed_search_on_witness. Qed.
 
 Print Assumptions C04_legacy_plain.
 Print Assumptions C04_plain_nonvacuous.
+Print Assumptions C04_legacy_rev.
+Print Assumptions C04_rev_nonvacuous.
 Print Assumptions C04_sub_proof_verifies_partial.
 Print Assumptions C04_unfixed_search_refuted.
 Print Assumptions C04_unfixed_refuted.
